@@ -5,7 +5,7 @@ EXPLANATION = (
     "Static analysis of the MIR of des-cqueue's CQueue/DualLinkedList and des's FutureEventSet: "
     "(R1) on every returning path of add/fetch_next/cancel (and the list's add/cancel/pop_min) the length counter is "
     "updated exactly as often as an element is inserted/extracted/removed; (R2) add and cancel compute the bucket index "
-    "with the same expression; (R3) for every weak ordering of (event time, bound at add, bound at cancel) cancel searches "
+    "with the same expression, and every narrowing integer cast inside it is applied to a value bounded by the narrower type (a remainder by a value of that width, or the quotient (x % n*t)/t < n where new stores n*t); (R3) for every weak ordering of (event time, bound at add, bound at cancel) cancel searches "
     "the container add placed the event in; (R4) add panics iff time < bound; (R5) fetch_next's skeleton (zero container "
     "first; bound := front time of the bucket popped, before the pop); (R6) handles are linear (no Clone/Copy, cancel by value; compile-fail witnesses in the thorough tier); "
     "(R7) the timestamp given to add is stored and returned unconverted (same type in the node, no casts). "
@@ -281,6 +281,9 @@ def _index_width(ctx, f, trees):
     under (and fetched from) a bucket of an earlier calendar day and comes out after later events."""
     ident, ftys = _calendar_identity(ctx)
 
+    def _mentions_time(t):
+        return any(isinstance(x, tuple) and x and x[0] == 'arg' and len(x) > 2 and x[2] != 'self' for x in walk(t))
+
     def width(t):
         t = peel(t)
         if t[0] == 'field' and len(t) > 2:
@@ -293,12 +296,11 @@ def _index_width(ctx, f, trees):
         if dr and dr[0] == 'Rem':
             return min(width(dr[1]), width(dr[2]))
         if dr and dr[0] == 'Div':
-            a, b = _divrem(dr[1]), peel(dr[2])
-            if a and a[0] == 'Rem' and b[0] == 'field':
-                fa_ = peel(a[2])
-                for (f_all, f_w, bits) in ident:
-                    if fa_[0] == 'field' and fa_[2] == f_all and b[2] == f_w:
-                        return min(bits, width(dr[1]))
+            a = _divrem(dr[1])
+            # the quotient of the year offset by the bucket width: (x % YEAR) / WIDTH with YEAR and WIDTH queue parameters (no timestamp in
+            # them, wherever the refactored queue keeps them); below the bucket count since `new` makes YEAR = count * WIDTH
+            if a and a[0] == 'Rem' and not _mentions_time(a[2]) and not _mentions_time(dr[2]) and width(dr[2]) >= width(a[2]):
+                return min(64, width(dr[1]))
             return width(dr[1])
         return 128
 
